@@ -57,15 +57,15 @@ def cons(label, n, nl, kinds=None, aggralg=(0, 0, 0), inalg=None, cal=None, hi=0
 Z = (0, 0, 0)
 cons_q = [
     cons("n1_l1", 1, (1, 1, 1)),
-    cons("n1_l2_lcnull", 1, (2, 1, 1), aggralg=(1, 0, 0), lcnull=((1, 0, 0), Z, Z)),
+    cons("n1_l2_legacy_lcnull", 1, (2, 1, 1), kinds=((I, L, I), Z, Z), aggralg=(1, 0, 0), lcnull=((1, 0, 0), Z, Z)),
     cons("n2_l11_cal", 2, (1, 1, 1), aggralg=(0, 2, 0), cal=-20),
-    cons("n2_l21_legacy", 2, (2, 1, 1), kinds=((L, I, I), Z, Z), aggralg=(1, 0, 0)),
     cons("n1_l1_meta_cal", 1, (1, 1, 1), kinds=((M, I, I), Z, Z), aggralg=(1, 0, 0), cal=-32, md=1),
     cons("n3_l111", 3, (1, 1, 1), aggralg=(0, 1, 2)),
     cons("n2_hi", 2, (1, 1, 1), aggralg=(1, 0, 0), hi=1),
     cons("n1_unsupported", 1, (1, 1, 1), aggralg=(3, 0, 0), unsup=1),
 ]
 cons_t = cons_q + [
+    cons("n2_l21_legacy", 2, (2, 1, 1), kinds=((L, I, I), Z, Z), aggralg=(1, 0, 0)),
     cons("n2_l12_meta_cal", 2, (1, 2, 1), kinds=(Z, (M, I, I), Z), aggralg=(0, 1, 0), cal=-32, md=1),
     cons("n3_l222_cal", 3, (2, 2, 2), aggralg=(0, 1, 0), cal=-20),
     cons("n3_l321_mixed", 3, (3, 2, 1), kinds=((L, I, M), (I, L, I), Z), aggralg=(1, 0, 2), md=1),
@@ -79,8 +79,8 @@ def cal(label, nl, aggr, pub=0, auth=0):
     if pub: d.append("SB_HAS_PUB=1")
     if auth: d.append("SB_HAS_AUTH=1")
     return {"label": label, "defines": d}
-cal_q = [cal("l1_pub", 1, 1, pub=1), cal("l2_noaggr_auth", 2, 0, auth=1), cal("l3", 3, 1), cal("l4_pub", 4, 1, pub=1)]
-cal_t = cal_q + [cal("l4_noaggr_auth", 4, 0, auth=1)]
+cal_q = [cal("l1_pub", 1, 1, pub=1), cal("l2_noaggr_auth", 2, 0, auth=1), cal("l3", 3, 1)]
+cal_t = cal_q + [cal("l4_pub", 4, 1, pub=1), cal("l4_noaggr_auth", 4, 0, auth=1)]
 
 def root(label, inalg, dirs, sibs, pub):
     n = len(dirs); cur = inalg
@@ -158,12 +158,12 @@ plan = {
                  "KSI_HashChain_aggregate", "aggregateChain", "dataHasher_addLinkImprint", "KSI_DataHash_equals", "KSI_DataHasher_add", "KSI_DataHasher_close", "KSI_TlvElement_serialize"],
    "bound": "shapes: 1-3 chains x 1-2 links (thorough up to 3) x sibling kinds imprint / legacy id / metadata x chain algorithms SHA-1 / SHA2-256 / RIPEMD-160 (+ unsupported id 3, ids beyond 32 bit) x calendar chain present; symbolic: directions, 64-bit level corrections, all imprint bytes, docAggrLevel",
    "instances": cons_q, "thorough": {"instances": cons_t, "timeout": 1500}},
-  {"name": "ha_calendar", "src": "ha_calendar.c", "env": ENV, "tus": TUS + ["publicationsfile"], "unwind": 7, "timeout": 300, "object_bits": 12,
+  {"name": "ha_calendar", "src": "ha_calendar.c", "env": ENV, "tus": TUS + ["publicationsfile"], "unwind": 7, "timeout": 400, "object_bits": 12, "solver": "kissat",
    "functions": ["KSI_VerificationRule_CalendarHashChainAggregationTime", "KSI_VerificationRule_CalendarHashChainRegistrationTime", "KSI_CalendarHashChain_calculateAggregationTime", "calculateCalendarAggregationTime", "highBit",
                  "KSI_VerificationRule_CalendarChainHashAlgorithmObsoleteAtPubTime", "calendarChainAggrAlgorithmState", "getNextLink", "wasObsoleteAt", "KSI_VerificationRule_SignaturePublicationRecordPublicationTime",
                  "KSI_VerificationRule_CalendarAuthenticationRecordAggregationTime"],
-   "bound": "calendar chains of 1-4 links, aggregation time element present / absent, publication or auth record; symbolic: 64-bit publication / aggregation / record times, link directions, sibling algorithm ids",
-   "instances": cal_q, "thorough": {"instances": cal_t, "timeout": 900}},
+   "bound": "calendar chains of 1-3 links (thorough 4), aggregation time element present / absent, publication or auth record; symbolic: 64-bit publication / aggregation / record times, link directions, sibling algorithm ids",
+   "instances": cal_q, "thorough": {"instances": cal_t, "timeout": 1500}},
   {"name": "ha_calroot", "src": "ha_calroot.c", "env": ENV, "global_defines": ["HM_LOG_MAX=72", "HM_REC_MAX=4"], "tus": TUS + ["publicationsfile"], "unwind": 6, "timeout": 400, "object_bits": 12,
    "functions": ["KSI_VerificationRule_SignaturePublicationRecordPublicationHash", "KSI_VerificationRule_CalendarAuthenticationRecordAggregationHash", "KSI_CalendarHashChain_aggregate", "KSI_HashChain_aggregateCalendar",
                  "aggregateChain (calendar mode)", "KSI_DataHash_equals"],
